@@ -162,35 +162,7 @@ def run(ctx):
         if not ok:
             res.add(Finding('C11', 'C11.c', 'R-PROV', g.file, g.qualname, g.node.lineno, norm(ctor[0])[:140] if ctor else 'rebuilt recording',
                             '%s.get_recording does not rebuild the recording from a decode() performed in this call: two fetches share objects' % c.name))
-    # no decoded object parked in a cassette field
-    parked = []
-    for c in repo.subclasses('TapeCassette'):
-        for m in c.methods.values():
-            dec_names = set()
-            for n in walk_own(m.node):
-                if isinstance(n, ast.Assign) and isinstance(n.targets[0], ast.Name) and any(
-                        isinstance(x, ast.Call) and isinstance(x.func, ast.Name) and x.func.id == 'decode' for x in ast.walk(n.value)):
-                    dec_names.add(n.targets[0].id)
-            for n in ast.walk(m.node):
-                if isinstance(n, ast.Assign):
-                    for t in n.targets:
-                        base = t.value if isinstance(t, ast.Subscript) else t
-                        if self_attr(base) or (isinstance(base, ast.Attribute) and self_attr(base.value)):
-                            vnames = {x.id for x in ast.walk(n.value) if isinstance(x, ast.Name)}
-                            has_dec = any(isinstance(x, ast.Call) and isinstance(x.func, ast.Name) and x.func.id == 'decode' for x in ast.walk(n.value))
-                            if vnames & dec_names or has_dec:
-                                parked.append((m, n))
-                if isinstance(n, ast.Call) and isinstance(n.func, ast.Attribute) and n.func.attr in ('setdefault', 'append', 'add', 'update') and \
-                        (self_attr(n.func.value) or (isinstance(n.func.value, ast.Attribute) and self_attr(n.func.value.value))):
-                    vnames = {x.id for a in n.args for x in ast.walk(a) if isinstance(x, ast.Name)}
-                    if vnames & dec_names:
-                        parked.append((m, n))
-    cc.instance('no cassette method stores a decoded object in a field of the cassette', 'playback/tape_cassettes/', not parked)
-    cc.evaluations += 1
-    for m, n in parked:
-        res.add(Finding('C11', 'C11.c', 'R-PROV', m.file, m.qualname, n.lineno, norm(n)[:140],
-                        'a decoded recording object is kept in a field of the cassette: later fetches can be answered from it and share one '
-                        'object graph'))
+    no_decoded_cache(ctx, res, cc, 'C11', 'C11.c')
 
     # ---------------- C11.d
     rd = roles.reader
@@ -327,3 +299,36 @@ def selects_direct(ext, sel, call):
     except Undecidable:
         return None
     return v == direct_when_true
+
+
+def no_decoded_cache(ctx, res, cc, prop, cid):
+    repo = ctx.repo
+    parked = []
+    for c in repo.subclasses('TapeCassette'):
+        for m in c.methods.values():
+            dec_names = set()
+            for n in walk_own(m.node):
+                if isinstance(n, ast.Assign) and isinstance(n.targets[0], ast.Name) and any(
+                        isinstance(x, ast.Call) and isinstance(x.func, ast.Name) and x.func.id == 'decode' for x in ast.walk(n.value)):
+                    dec_names.add(n.targets[0].id)
+            for n in ast.walk(m.node):
+                if isinstance(n, ast.Assign):
+                    for t in n.targets:
+                        base = t.value if isinstance(t, ast.Subscript) else t
+                        if self_attr(base) or (isinstance(base, ast.Attribute) and self_attr(base.value)):
+                            vnames = {x.id for x in ast.walk(n.value) if isinstance(x, ast.Name)}
+                            has_dec = any(isinstance(x, ast.Call) and isinstance(x.func, ast.Name) and x.func.id == 'decode' for x in ast.walk(n.value))
+                            if vnames & dec_names or has_dec:
+                                parked.append((m, n))
+                if isinstance(n, ast.Call) and isinstance(n.func, ast.Attribute) and n.func.attr in ('setdefault', 'append', 'add', 'update') and \
+                        (self_attr(n.func.value) or (isinstance(n.func.value, ast.Attribute) and self_attr(n.func.value.value))):
+                    vnames = {x.id for a in n.args for x in ast.walk(a) if isinstance(x, ast.Name)}
+                    if vnames & dec_names:
+                        parked.append((m, n))
+    cc.instance('no cassette method stores a decoded object in a field of the cassette', 'playback/tape_cassettes/', not parked)
+    cc.evaluations += 1
+    for m, n in parked:
+        res.add(Finding(prop, cid, 'R-PROV', m.file, m.qualname, n.lineno, norm(n)[:140],
+                        'a decoded recording object is kept in a field of the cassette: later fetches can be answered from it and share one '
+                        'object graph'))
+
